@@ -97,6 +97,19 @@ Inductive call_fallback := CallAnonymous (* libsbml.AST_FUNCTION without a name 
 Inductive role := Reactant | Product | RoleUnknown.
 Inductive num_stoich := NsSignAbs (* reactant iff factor < 0, stoichiometry abs(factor) *) | NsUnknown.
 Inductive ia_setter := IaSetVariable (* no such libSBML method: AttributeError *) | IaSetSymbol | IaUnknown.
+Inductive rename_mode :=
+| RenSimultaneous   (* ONE IdentifierReplacer pass with the whole {parameter: model name} map *)
+| RenSequential     (* one single-pair pass per (parameter, model name): a later pass renames what an earlier one introduced *)
+| RenUnknown.
+Inductive math_names :=
+| MathRawNames      (* the math refers to the model's names, whatever id the component was written under *)
+| MathIds           (* the math (and the symbol of an initial assignment, the id of a species reference) uses the id
+                       under which the component is written: _sbml_ids *)
+| MathNamesUnknown.
+Inductive refid_mode :=
+| RefPerSpecies     (* reference id / rule name "<species>ref", whatever the reaction *)
+| RefCounted        (* "<species>ref", "<species>ref2", ...: one reference per computed coefficient of the species *)
+| RefUnknown.
 
 Record facts := mkFacts {
   f_unary : list (string * mkind);
@@ -116,6 +129,9 @@ Record facts := mkFacts {
   f_derived_role : role;                   (* species reference created for a Derived coefficient *)
   f_num_stoich : num_stoich;
   f_ia_setter : ia_setter;
+  f_rename : rename_mode;                  (* how _tree_to_sbml renames parameters to model names *)
+  f_ref_id : refid_mode;                   (* id of the species reference / rule of a computed coefficient *)
+  f_math_names : math_names;               (* identifiers inside the exported math *)
   f_shapes_ok : bool                       (* every other modelled statement has the expected shape *)
 }.
 
@@ -338,12 +354,37 @@ Definition rename_stmt (mp : list (N * N)) (s : stmt) : stmt :=
 
 Definition is_doc (s : stmt) : bool := match s with SDoc => true | _ => false end.
 
+(** the same pairs applied ONE AFTER THE OTHER, each as its own IdentifierReplacer pass over the whole tree (a pair whose
+    two names are equal renames nothing, so skipping it changes nothing) *)
+Fixpoint rename_seq (mp : list (N * N)) (e : expr) : expr :=
+  match mp with [] => e | p :: r => rename_seq r (rename [p] e) end.
+Definition rename_stmt_seq (mp : list (N * N)) (s : stmt) : stmt :=
+  match s with SReturn e => SReturn (rename_seq mp e) | s' => s' end.
+
+(** one pass per pair cannot go wrong when no pass can touch what an earlier pass introduced: for every pair
+    (parameter, model name) the model name is not the parameter of a LATER pair *)
+Fixpoint seq_safe (mp : list (N * N)) : Prop :=
+  match mp with
+  | [] => True
+  | (_, a) :: r => ~ In a (map fst r) /\ seq_safe r
+  end.
+
+Definition rename_body (F : facts) (mp : list (N * N)) (body : list stmt) : option (list stmt) :=
+  match f_rename F with
+  | RenSimultaneous => Some (map (rename_stmt mp) body)
+  | RenSequential => Some (map (rename_stmt_seq mp) body)
+  | RenUnknown => None
+  end.
+
 (** _tree_to_sbml / _sbmlify_fn: docstring removal, zip(strict=True) of parameters and model
     names, renaming, body conversion *)
 Definition tree_to_sbml (F : facts) (fd : fundef) (args : list N) : result ml :=
   let body := filter (fun s => negb (is_doc s)) (fd_body fd) in
   if Nat.eqb (List.length (fd_params fd)) (List.length args) then
-    handle_body F (map (rename_stmt (combine (fd_params fd) args)) body)
+    match rename_body F (combine (fd_params fd) args) body with
+    | Some body' => handle_body F body'
+    | None => Err ErrOther
+    end
   else Err ErrValue.
 
 (* ------------------------------------------------------------------------------------- *)
@@ -702,7 +743,8 @@ Definition facts_good (F : facts) : bool :=
   && forallb unop_ok (f_unop F) && forallb binop_ok (f_binop F) && forallb cmpop_ok (f_cmpop F)
   && forallb (unary_ok F) (f_unary F) && forallb binary_ok (f_binary F) && forallb nary_ok (f_nary F)
   && order_eqb (f_ifexp_order F) [CBody; CTest; COrelse]
-  && forallb is_lib (f_lib_parents F) && forallb attr_ok (f_attr_consts F).
+  && forallb is_lib (f_lib_parents F) && forallb attr_ok (f_attr_consts F)
+  && match f_rename F with RenSimultaneous => true | _ => false end.
 
 (** * the representable subset, as the tables define it *)
 Definition is_some {A} (o : option A) : bool := match o with Some _ => true | None => false end.
@@ -739,24 +781,36 @@ Definition single_return (fd : fundef) (e : expr) : Prop :=
 Definition set_ifexp_order (o : list ifchild) (F : facts) : facts :=
   mkFacts (f_unary F) (f_binary F) (f_nary F) (f_unop F) (f_binop F) (f_cmpop F) o (f_compare F) (f_call_fallback F)
           (f_call_arity F) (f_call_kw_reject F) (f_unary_qual F) (f_lib_parents F) (f_attr_consts F) (f_derived_role F)
-          (f_num_stoich F) (f_ia_setter F) (f_shapes_ok F).
+          (f_num_stoich F) (f_ia_setter F) (f_rename F) (f_ref_id F) (f_math_names F) (f_shapes_ok F).
 Definition set_compare (c : compare_mode) (F : facts) : facts :=
   mkFacts (f_unary F) (f_binary F) (f_nary F) (f_unop F) (f_binop F) (f_cmpop F) (f_ifexp_order F) c (f_call_fallback F)
           (f_call_arity F) (f_call_kw_reject F) (f_unary_qual F) (f_lib_parents F) (f_attr_consts F) (f_derived_role F)
-          (f_num_stoich F) (f_ia_setter F) (f_shapes_ok F).
+          (f_num_stoich F) (f_ia_setter F) (f_rename F) (f_ref_id F) (f_math_names F) (f_shapes_ok F).
 Definition set_call (fb : call_fallback) (arity kw : bool) (F : facts) : facts :=
   mkFacts (f_unary F) (f_binary F) (f_nary F) (f_unop F) (f_binop F) (f_cmpop F) (f_ifexp_order F) (f_compare F) fb
           arity kw (f_unary_qual F) (f_lib_parents F) (f_attr_consts F) (f_derived_role F)
-          (f_num_stoich F) (f_ia_setter F) (f_shapes_ok F).
+          (f_num_stoich F) (f_ia_setter F) (f_rename F) (f_ref_id F) (f_math_names F) (f_shapes_ok F).
 Definition set_unary_qual (q : list (mkind * Z)) (F : facts) : facts :=
   mkFacts (f_unary F) (f_binary F) (f_nary F) (f_unop F) (f_binop F) (f_cmpop F) (f_ifexp_order F) (f_compare F)
           (f_call_fallback F) (f_call_arity F) (f_call_kw_reject F) q (f_lib_parents F) (f_attr_consts F) (f_derived_role F)
-          (f_num_stoich F) (f_ia_setter F) (f_shapes_ok F).
+          (f_num_stoich F) (f_ia_setter F) (f_rename F) (f_ref_id F) (f_math_names F) (f_shapes_ok F).
 Definition set_derived_role (r : role) (F : facts) : facts :=
   mkFacts (f_unary F) (f_binary F) (f_nary F) (f_unop F) (f_binop F) (f_cmpop F) (f_ifexp_order F) (f_compare F)
           (f_call_fallback F) (f_call_arity F) (f_call_kw_reject F) (f_unary_qual F) (f_lib_parents F) (f_attr_consts F) r
-          (f_num_stoich F) (f_ia_setter F) (f_shapes_ok F).
+          (f_num_stoich F) (f_ia_setter F) (f_rename F) (f_ref_id F) (f_math_names F) (f_shapes_ok F).
 Definition set_ia_setter (i : ia_setter) (F : facts) : facts :=
   mkFacts (f_unary F) (f_binary F) (f_nary F) (f_unop F) (f_binop F) (f_cmpop F) (f_ifexp_order F) (f_compare F)
           (f_call_fallback F) (f_call_arity F) (f_call_kw_reject F) (f_unary_qual F) (f_lib_parents F) (f_attr_consts F)
-          (f_derived_role F) (f_num_stoich F) i (f_shapes_ok F).
+          (f_derived_role F) (f_num_stoich F) i (f_rename F) (f_ref_id F) (f_math_names F) (f_shapes_ok F).
+Definition set_rename (m : rename_mode) (F : facts) : facts :=
+  mkFacts (f_unary F) (f_binary F) (f_nary F) (f_unop F) (f_binop F) (f_cmpop F) (f_ifexp_order F) (f_compare F)
+          (f_call_fallback F) (f_call_arity F) (f_call_kw_reject F) (f_unary_qual F) (f_lib_parents F) (f_attr_consts F)
+          (f_derived_role F) (f_num_stoich F) (f_ia_setter F) m (f_ref_id F) (f_math_names F) (f_shapes_ok F).
+Definition set_ref_id (m : refid_mode) (F : facts) : facts :=
+  mkFacts (f_unary F) (f_binary F) (f_nary F) (f_unop F) (f_binop F) (f_cmpop F) (f_ifexp_order F) (f_compare F)
+          (f_call_fallback F) (f_call_arity F) (f_call_kw_reject F) (f_unary_qual F) (f_lib_parents F) (f_attr_consts F)
+          (f_derived_role F) (f_num_stoich F) (f_ia_setter F) (f_rename F) m (f_math_names F) (f_shapes_ok F).
+Definition set_math_names (m : math_names) (F : facts) : facts :=
+  mkFacts (f_unary F) (f_binary F) (f_nary F) (f_unop F) (f_binop F) (f_cmpop F) (f_ifexp_order F) (f_compare F)
+          (f_call_fallback F) (f_call_arity F) (f_call_kw_reject F) (f_unary_qual F) (f_lib_parents F) (f_attr_consts F)
+          (f_derived_role F) (f_num_stoich F) (f_ia_setter F) (f_rename F) (f_ref_id F) m (f_shapes_ok F).
